@@ -741,8 +741,9 @@ class TypeBlocks(ContainerOperand):
                     else:
                         yield b[index_ic.iloc_src_fancy(), columns_ic.iloc_src]
                 else:
+                    # if no column labels are in common, iloc_src and iloc_dst are None: every column is a fill column
                     columns_dst_to_src = dict(
-                            zip(columns_ic.iloc_dst, columns_ic.iloc_src)) #type: ignore [arg-type]
+                            zip(columns_ic.iloc_dst, columns_ic.iloc_src)) if columns_ic.has_common else {} #type: ignore [arg-type]
 
                     for idx in range(columns_ic.size):
                         # if no index labels are in common, iloc_src and iloc_dst are None: all values are fill values
